@@ -324,6 +324,10 @@ func buildStack(layers []layerSpec, inner http.Handler, prelude bool) (http.Hand
 					return ratelimit.NewRateSet(), nil
 				})))
 			}
+			if l.sticky != 0 {
+				// an optional error handler passed through from a configuration that has none: the documented default answers
+				rlOpts = append(rlOpts, ratelimit.ErrorHandler(nil))
+			}
 			tl, err := ratelimit.New(sw, extract, rates, rlOpts...)
 			if err != nil {
 				return nil, err
